@@ -1608,6 +1608,8 @@ def validate(prop, rng, n_per_fn, res):
             and all(common.TRANSLATION_STATUS.get(f, {}).get("translated") for f in
                     ("find_dependencies", "update_recursive", "DelayFixed_with_delay", "DelayToPull_with_delay", "DelayToPush_with_delay")):
         validate_sched_heap(rng, max(6, n_per_fn // 3), res)
+    if prop in ("C02", "C03", "C05") and os.path.exists(TRDRIVER):
+        validate_run_loop(rng, max(12, n_per_fn // 2), res)
     if prop == "C14" and os.path.exists(TRDRIVER):
         validate_gridmemo(rng, max(60, n_per_fn), res)
     if prop == "C18" and os.path.exists(TRDRIVER):
@@ -1831,6 +1833,77 @@ def validate_sched_heap(rng, n_specs, res, max_steps=10):
         except Exception:  # noqa
             pass
     res.extra["translation_validation_object_graphs"] = stats
+
+
+def validate_run_loop(rng, n_specs, res):
+    """live compositions (the scheduler harness of C01-C05) run by the real `Composition.run`, with the top-level calls of
+    `_update_recursive` recorded: the table (time, FINISHED) of the time components before every call, the component handed
+    in, the component it answered with, and the table after the last call.  The translated loop replays the tables as its
+    world and must hand the same components to `_update_recursive`, in the same order, and stop after the same round."""
+    from .engines import sched_common as sc
+    from .engines import c05, c20
+    from .schedlib import build, TH
+    from .fmutil import limited
+
+    if not common.TRANSLATION_STATUS.get("run_loop", {}).get("translated"):
+        return
+    stats = {"runs": 0, "rounds": 0, "finishing_components": 0, "aborted_runs": 0, "mismatch": 0}
+    reqs, expect = [], []
+    for _ in range(n_specs):
+        r = rng.random()
+        spec = (sc.gen_dag(rng, pull_comps=True) if r < 0.4 else sc.gen_ring(rng, resolved=True) if r < 0.65
+                else c20.gen_pull(rng) if r < 0.8 else sc.gen_mixed_delay_chain(rng))
+        if rng.random() < 0.3:
+            tcs_spec = [c for c in spec["comps"] if c["kind"] == "time"]
+            if tcs_spec:
+                rng.choice(tcs_spec)["finish_at"] = rng.randint(1, max(1, spec.get("end", 6)))
+        try:
+            composition, comps, _adapters, _trace, _fin, _links = build(spec)
+        except Exception:  # noqa
+            continue
+        ix = {id(c): k for k, c in enumerate(comps)}
+        entries, last, depth = [], [None], [0]
+        orig = composition._update_recursive
+
+        def table():
+            return [[ix[id(c)], [us_of(c.time), c.status == fm.ComponentStatus.FINISHED]]
+                    for c in composition._components if isinstance(c, fm.ITimeComponent)]
+
+        def wrapper(c, chain=None, target_time=None):
+            top = depth[0] == 0
+            pre = table() if top else None
+            depth[0] += 1
+            try:
+                out = orig(c, chain, target_time)
+            finally:
+                depth[0] -= 1
+            if top:
+                entries.append((pre, ix[id(c)], ix[id(out)]))
+                last[0] = table()
+            return out
+
+        composition._update_recursive = wrapper
+        has_time = any(c["kind"] == "time" for c in spec["comps"])
+        try:
+            limited(60, composition.run, end_time=TH(spec["end"]) if has_time else None)
+        except Exception:  # noqa  (failing runs are the business of C01 / C04)
+            stats["aborted_runs"] += 1
+            continue
+        if not entries:
+            continue
+        stats["runs"] += 1
+        stats["rounds"] += len(entries)
+        stats["finishing_components"] += 1 if any(f for _i, (_t, f) in last[0]) else 0
+        script = [[pre, upd] for pre, _c, upd in entries] + [[last[0], 0]]
+        tcs = [ix[id(c)] for c in composition._components if isinstance(c, fm.ITimeComponent)]
+        reqs.append({"fn": "run_loop", "args": [script, tcs, us_of(TH(spec["end"])), len(entries) + 5]})
+        expect.append((spec, {"ok": [[c for _p, c, _u in entries], 1]}))
+    if reqs:
+        for (spec, want), got in zip(expect, _trdriver(reqs)):
+            if got != want:
+                stats["mismatch"] += 1
+                res.diverge("translation/run_loop", {"spec": spec}, want, got)
+    res.extra["translation_validation_run_loop"] = stats
 
 
 def validate_gridmemo(rng, n_grids, res):
